@@ -247,6 +247,8 @@ func (e *Encoder) SetCReg(adj uint8, incr bool, c ivg.Color) {
 	if incr {
 		if adj != 0 {
 			e.err = errInvalidIncrementingAdjustment
+		} else {
+			e.cSel = (e.cSel + 1) & 0x3f
 		}
 		adj = 7
 	}
@@ -286,6 +288,8 @@ func (e *Encoder) SetNReg(adj uint8, incr bool, f float32) {
 	if incr {
 		if adj != 0 {
 			e.err = errInvalidIncrementingAdjustment
+		} else {
+			e.nSel = (e.nSel + 1) & 0x3f
 		}
 		adj = 7
 	}
